@@ -11,7 +11,9 @@
     of F15: the scan restarts from the earliest remaining specification after every append);
   * the *package layer* the driver runs: a package is a list of variable specifications with the
     identifiers occurring in their initialisers and a list of functions/methods with the identifiers
-    of their bodies; `collectDepsY` is `getVarDependencies`, `runY` is `Execute`;
+    of their bodies; `specsY` is the splitting of `var a, b = x, y` done by `ast`, `collectDepsY` is
+    `getVarDependencies` (a walk that follows references to functions and methods, `walkIds`),
+    `runY` is `Execute`; the decisions the repairs of round 3 introduced are parameters (`DepFacts`);
   * the *declaration layer*: a package as source — files, each a list of declarations (variable
     specifications, function declarations with receiver / name / parameter counts, types);
     `pkgInits` is the list `initNodes` that `cfg` and `importSrc` build under the registration
@@ -28,8 +30,11 @@ abbrev Deps := List (List Nat)
 
 def depsOf (g : Deps) (i : Nat) : List Nat := g.getD i []
 
-/-- `canInit`: every collected dependency is in `inited` (`done` lists `varNode.child`, which is
-    the same set as the `inited` map: both are extended together) -/
+/-- `canInit`: no collected dependency is `pending`. `pending` starts as the set of all the
+    specifications of the list and loses one whenever `varNode.child` (`done`) gains it, so a
+    specification of the list is pending iff it is not in `done`. (A dependency outside the list — a
+    variable of an earlier `Eval`, or of another package — is never pending; the model describes one
+    evaluation of one package, where every collected dependency is a specification of the list.) -/
 def ready (g : Deps) (done : List Nat) (i : Nat) : Bool :=
   (depsOf g i).all (fun d => done.contains d)
 
@@ -77,8 +82,9 @@ def Respects (g : Deps) (l : List Nat) : Prop := respectsFrom g [] l = true
 
 /-- an identifier occurring in an initialiser or a function body. `pkgLevel = false`: in Go it
     does not denote the package-level object of that name (a local variable that shadows it, a
-    struct field key); `getVarDependencies` looks every identifier up in the package scope by name
-    only. -/
+    struct field key). Since the repair of F15-4 `getVarDependencies` resolves an identifier by the
+    symbol `cfg` attached to it (`n.sym`), so such an identifier is never a dependency; before, it
+    looked every identifier up in the package scope by name only. -/
 structure Ident where
   name : String
   pkgLevel : Bool := true
@@ -90,40 +96,90 @@ structure Init where
   ids : List Ident
   deriving DecidableEq, Repr
 
-/-- one variable specification (a child of a `varDecl` node).
+/-- one variable specification of the source (a child of a `varDecl` node as written).
     `inits.length = 0`: `var z T`; `= 1` with several names: `var a, b = f()` (`multi`);
-    `= names.length ≥ 2`: `var a, b = x, y`. -/
+    `= names.length ≥ 2`: `var a, b = x, y` (`paired`). -/
 structure VarSpec where
   names : List String
   inits : List Init
-  /-- only for `var a, b = f()`: `f` is declared later in the source than this specification.
-      `gta` types the specification (`compDefineX`) when it meets it and does not come back:
-      "assignment mismatch: 2 variables but f returns 0 values". -/
+  /-- only for `var a, b = f()`: `f` is declared later in the source than this specification
+      (before the repair of F15-7 `gta` typed the specification when it met it and did not come
+      back: "assignment mismatch: 2 variables but f returns 0 values") -/
   calleeLater : Bool := false
   deriving DecidableEq, Repr
 
-/-- `defineXStmt`: several names, one multi-valued expression. Its symbols are created by
-    `compDefineX` without `global` and without `node`. -/
+/-- `defineXStmt`: several names, one multi-valued expression -/
 def VarSpec.multi (v : VarSpec) : Bool := v.names.length ≥ 2 && v.inits.length == 1
 
-/-- `var a, b = x, y`: one specification node, two independently initialised variables -/
-def VarSpec.paired (v : VarSpec) : Bool := v.inits.length ≥ 2
+/-- `var a, b = x, y`: two independently initialised variables -/
+def VarSpec.paired (v : VarSpec) : Bool := v.names.length ≥ 2 && v.inits.length == v.names.length
 
 def VarSpec.ids (v : VarSpec) : List Ident := v.inits.flatMap (·.ids)
 def VarSpec.labels (v : VarSpec) : List String := v.inits.map (·.label)
 
-/-- a function or method (methods are named `T.m`) with the identifiers of its body -/
+/-- a function or method (methods are named `T.m`, `meth = true`) with the identifiers of its
+    body in the order in which a walk of the declaration meets them -/
 structure Func where
   name : String
   ids : List Ident
+  meth : Bool
   deriving DecidableEq, Repr
 
 structure Pkg where
-  vars : List VarSpec
+  vars : List VarSpec      -- the variable specifications as written, in source order
   funcs : List Func
   inits : List String      -- labels logged by the `init` functions, in source order
   main : Option String     -- label logged by `main`
   deriving DecidableEq, Repr
+
+def isFunc (funcs : List Func) (name : String) : Bool := funcs.any (fun f => f.name == name)
+
+def bodyOf (funcs : List Func) (name : String) : List Ident :=
+  match funcs.find? (fun f => f.name == name) with
+  | some f => f.ids
+  | none => []
+
+/-- how `getVarDependencies` finds what an identifier denotes -/
+inductive Resolve where
+  /-- `sc.lookup(n.ident)`: by name in the package scope (before the repair of F15-4/F15-5) -/
+  | byName
+  /-- `n.sym`: the symbol attached to the node by `cfg` -/
+  | lexical
+  | other (text : String)
+  deriving DecidableEq, Repr
+
+/-- Facts read from `getVarDependencies` (interp/cfg.go), from the `defineXStmt` case of `gta`
+    (interp/gta.go) and from the `token.VAR` case of `ast` (interp/ast.go), regenerated by the
+    extractor. Each is a decision one of the repairs of round 3 introduced; the record of the code
+    before them is `Expected.C15.depFactsBefore`. -/
+structure DepFacts where
+  /-- how an identifier is resolved -/
+  resolve : Resolve
+  /-- `case n.sym.kind == funcSym: fn = n.sym.node` followed by the walk of `fn` (F14) -/
+  followFuncs : Bool
+  /-- `case n.kind == selectorExpr && n.action == aGetMethod: fn, _ = n.val.(*node)` (F14) -/
+  followMethods : Bool
+  /-- the test of a global variable symbol also requires `sym.node != nod` (F15-6: gone) -/
+  skipSelf : Bool
+  /-- `gta`, `case defineXStmt`: `sym.global, sym.node = true, n` for the declared names (F15-1, F15-2) -/
+  multiGlobal : Bool
+  /-- `gta`, `case defineXStmt`: `revisit = append(revisit, n)` while the callee is incomplete (F15-7) -/
+  multiRetry : Bool
+  /-- `ast`, `case token.VAR` under a `fileStmt`: `a.Specs = splitVarSpecs(a.Specs)` (F15-3) -/
+  splitPaired : Bool
+  deriving DecidableEq, Repr
+
+/-- `splitVarSpecs` (interp/ast.go) on one specification: `a, b = x, y` becomes `a = x`, `b = y`;
+    anything else (`len(vs.Names) < 2 || len(vs.Values) != len(vs.Names)`) is kept -/
+def splitSpec (v : VarSpec) : List VarSpec :=
+  if v.paired then (v.names.zip v.inits).map (fun ni => ⟨[ni.1], [ni.2], false⟩) else [v]
+
+/-- the specifications the ordering code sees (the list `getVars` builds) -/
+def specsY (d : DepFacts) (vars : List VarSpec) : List VarSpec :=
+  if d.splitPaired then vars.flatMap splitSpec else vars
+
+/-- the package as the ordering and execution code sees it -/
+def Pkg.seenBy (p : Pkg) (d : DepFacts) : Pkg := { p with vars := specsY d p.vars }
 
 /-- the identifiers `getVarDependencies` meets when it walks the specification: the declared
     names first, then those of the initialisation expressions -/
@@ -139,27 +195,92 @@ def lastDecl (name : String) : Nat → List VarSpec → Option (Nat × VarSpec)
     | some r => some r
     | none => if v.names.contains name then some (i, v) else none
 
-/-- `sc.lookup(n.ident)` followed by `sym.kind == varSym && sym.global`: index of the
-    specification whose node the *global variable* symbol of that name carries (symbols made by
-    `compDefineX` for `var a, b = f()` are not global) -/
-def lookupVar (vars : List VarSpec) (name : String) : Option Nat :=
-  match lastDecl name 0 vars with
-  | some (i, v) => if v.multi then none else some i
-  | none => none
+/-- the specification that declares the variable `name` (the blank identifier declares nothing) -/
+def declIdx (vars : List VarSpec) (name : String) : Option Nat :=
+  if name = "_" then none else vars.findIdx? (fun v => v.names.contains name)
 
-/-- `getVarDependencies(nod, sc)`: walk the identifiers of the specification; keep those that
-    resolve to a global variable whose `sym.node` is another specification -/
-def collectSpec (vars : List VarSpec) (self : Nat) (ids : List Ident) : List Nat :=
-  ids.filterMap (fun id => match lookupVar vars id.name with
-    | some k => if k = self then none else some k
+/-- the symbol of a variable declared by specification `v` is a global variable symbol carrying
+    its node: always for `defineStmt` / `valueSpec`; for `var a, b = f()` only since the repair of F15-1 -/
+def globalSym (d : DepFacts) (v : VarSpec) : Bool := !v.multi || d.multiGlobal
+
+/-- the symbol found for specification `i` passes the test `sym.kind == varSym && sym.global` -/
+def globalAt (d : DepFacts) (vars : List VarSpec) (i : Nat) : Bool :=
+  match vars[i]? with
+  | some v => globalSym d v
+  | none => true
+
+/-- the test `sym.kind == varSym && sym.global` and the node of the symbol: index of the
+    specification an identifier makes the walked one depend on -/
+def resolveVar (d : DepFacts) (vars : List VarSpec) (id : Ident) : Option Nat :=
+  match d.resolve with
+  | .byName =>
+    (match lastDecl id.name 0 vars with
+     | some (i, v) => if globalSym d v then some i else none
+     | none => none)
+  | _ =>
+    if id.pkgLevel then
+      (match declIdx vars id.name with
+       | some i => if globalAt d vars i then some i else none
+       | none => none)
+    else none
+
+/-- the identifier refers to a declared function or method whose declaration `getVarDependencies`
+    goes on to walk -/
+def follows (d : DepFacts) (funcs : List Func) (id : Ident) : Bool :=
+  id.pkgLevel && (match funcs.find? (fun f => f.name == id.name) with
+    | some g => if g.meth then d.followMethods else d.followFuncs
+    | none => false)
+
+/-- `n.Walk(visit, nil)` over a list of sibling identifiers, threading the `seen` set -/
+def visitList (step : List String → Ident → List Ident × List String) :
+    List String → List Ident → List Ident × List String
+  | seen, [] => ([], seen)
+  | seen, id :: rest =>
+    let r1 := step seen id
+    let r2 := visitList step r1.2 rest
+    (r1.1 ++ r2.1, r2.2)
+
+/-- `visit` on one identifier: it is met; when it refers to a function or method that was not
+    seen, that one is marked and its declaration is walked at once (`fn.Walk(visit, nil)`).
+    The fuel bounds the nesting (every nested walk marks a new function: `walkIds_fuel`). -/
+def visitId (follows : Ident → Bool) (body : String → List Ident) :
+    Nat → List String → Ident → List Ident × List String
+  | 0, seen, id => ([id], seen)
+  | fuel + 1, seen, id =>
+    if follows id && !seen.contains id.name then
+      let r := visitList (visitId follows body fuel) (id.name :: seen) (body id.name)
+      (id :: r.1, r.2)
+    else ([id], seen)
+
+/-- all identifiers `getVarDependencies` meets, in the order in which it meets them, and the
+    functions it has marked -/
+def walkIds (follows : Ident → Bool) (body : String → List Ident) (fuel : Nat) (seen : List String)
+    (ids : List Ident) : List Ident × List String :=
+  visitList (visitId follows body fuel) seen ids
+
+/-- where the walk of a specification starts: the whole node, but the declared names carry no
+    symbol (`isNewDefine`), so with lexical resolution only the initialisers count -/
+def startIds (d : DepFacts) (v : VarSpec) : List Ident :=
+  match d.resolve with
+  | .byName => v.walk
+  | _ => v.ids
+
+/-- `getVarDependencies(nod, sc)`: walk the specification (and, transitively, the functions and
+    methods it refers to); keep the identifiers that resolve to a global variable, as the index of
+    the specification that declares it -/
+def collectSpec (d : DepFacts) (vars : List VarSpec) (funcs : List Func) (self : Nat) (v : VarSpec) : List Nat :=
+  (walkIds (follows d funcs) (bodyOf funcs) funcs.length [] (startIds d v)).1.filterMap (fun id =>
+    match resolveVar d vars id with
+    | some k => if d.skipSelf && k == self then none else some k
     | none => none)
 
-def collectAux (vars : List VarSpec) : Nat → List VarSpec → Deps
+def collectAux (d : DepFacts) (vars : List VarSpec) (funcs : List Func) : Nat → List VarSpec → Deps
   | _, [] => []
-  | i, v :: vs => collectSpec vars i v.walk :: collectAux vars (i + 1) vs
+  | i, v :: vs => collectSpec d vars funcs i v :: collectAux d vars funcs (i + 1) vs
 
-/-- `deps[n] = getVarDependencies(n, sc)` for every specification -/
-def collectDepsY (p : Pkg) : Deps := collectAux p.vars 0 p.vars
+/-- `deps[n] = getVarDependencies(n, sc)` for every specification of the list `getVars` built -/
+def collectDepsY (d : DepFacts) (p : Pkg) : Deps :=
+  collectAux d (specsY d p.vars) p.funcs 0 (specsY d p.vars)
 
 def labelsOf (vars : List VarSpec) (order : List Nat) : List String :=
   order.flatMap (fun i => match vars[i]? with | some v => v.labels | none => [])
@@ -182,7 +303,7 @@ structure ExecFacts where
   importSrc : List String
   deriving DecidableEq, Repr
 
-/-- run the steps in order -/
+/-- run the steps in order (`p`: the package as the execution code sees it) -/
 def runSteps (order : Res) (p : Pkg) : Bool → List String → Trace
   | _, [] => ⟨[], false⟩
   | mainIn, st :: rest =>
@@ -200,21 +321,23 @@ def runSteps (order : Res) (p : Pkg) : Bool → List String → Trace
       ⟨p.inits ++ (if mainIn then p.main.toList else []) ++ t.events, t.err⟩
     else runSteps order p mainIn rest
 
-/-- `gta` fails before anything runs (see `VarSpec.calleeLater`) -/
-def gtaRejects (p : Pkg) : Bool := p.vars.any (fun v => v.multi && v.calleeLater)
+/-- `gta` fails before anything runs: a multi-value declaration whose callee is declared later,
+    unless `gta` comes back to it (see `VarSpec.calleeLater`, `DepFacts.multiRetry`) -/
+def gtaRejects (d : DepFacts) (p : Pkg) : Bool :=
+  !d.multiRetry && p.vars.any (fun v => v.multi && v.calleeLater)
 
 /-- `Eval` of a complete file = `CompileAST` (which appends `main` to the init list) then
     `Execute`: the root node (declarations only, logs nothing), the ordered global variables, the
     init list -/
-def runY (f : ExecFacts) (p : Pkg) : Trace :=
-  if gtaRejects p then ⟨[], true⟩ else
-  runSteps (orderY (collectDepsY p)) p (f.compile.contains "main-last") f.execute
+def runY (f : ExecFacts) (d : DepFacts) (p : Pkg) : Trace :=
+  if gtaRejects d p then ⟨[], true⟩ else
+  runSteps (orderY (collectDepsY d p)) (p.seenBy d) (f.compile.contains "main-last") f.execute
 
 /-- `importSrc` of a directory holding the package (several files: their specifications,
     functions and `init`s concatenated in file order) -/
-def runImportY (f : ExecFacts) (p : Pkg) : Trace :=
-  if gtaRejects p then ⟨[], true⟩ else
-  runSteps (orderY (collectDepsY p)) p false f.importSrc
+def runImportY (f : ExecFacts) (d : DepFacts) (p : Pkg) : Trace :=
+  if gtaRejects d p then ⟨[], true⟩ else
+  runSteps (orderY (collectDepsY d p)) (p.seenBy d) false f.importSrc
 
 /-! ### declaration layer: which declarations are init functions
 
@@ -359,7 +482,7 @@ def FuncDecl.key (f : FuncDecl) : String :=
   | .none => f.name
   | _ => f.recvType ++ "." ++ f.name
 
-def FuncDecl.toFunc (f : FuncDecl) : Func := ⟨f.key, f.ids⟩
+def FuncDecl.toFunc (f : FuncDecl) : Func := ⟨f.key, f.ids, f.recv != .none⟩
 
 /-- a package as source: its files in the order in which they are read, each a list of
     declarations in source order; `main`: label logged by `main`; `after`: what the ordinary calls
@@ -382,10 +505,12 @@ def Trace.andThen (t : Trace) (after : List String) : Trace :=
   if t.err then t else ⟨t.events ++ after, false⟩
 
 /-- `Eval` of the package given as one file -/
-def runSrcY (f : ExecFacts) (i : InitFacts) (s : SrcPkg) : Trace := (runY f (s.toPkg i)).andThen s.after
+def runSrcY (f : ExecFacts) (i : InitFacts) (d : DepFacts) (s : SrcPkg) : Trace :=
+  (runY f d (s.toPkg i)).andThen s.after
 
 /-- `importSrc` of the package given as a directory -/
-def runSrcImportY (f : ExecFacts) (i : InitFacts) (s : SrcPkg) : Trace := (runImportY f (s.toPkg i)).andThen s.after
+def runSrcImportY (f : ExecFacts) (i : InitFacts) (d : DepFacts) (s : SrcPkg) : Trace :=
+  (runImportY f d (s.toPkg i)).andThen s.after
 
 /-! ### several packages: `importSrc` -/
 
@@ -452,21 +577,21 @@ def Prog.importsOf (pr : Prog) (path : String) : List String :=
   | some s => s.imports
   | none => []
 
-def Prog.ownY (f : ExecFacts) (pr : Prog) (path : String) : Trace :=
-  if path = "main" then runImportY f pr.main else
+def Prog.ownY (f : ExecFacts) (d : DepFacts) (pr : Prog) (path : String) : Trace :=
+  if path = "main" then runImportY f d pr.main else
   match pr.find path with
-  | some s => runImportY f s.pkg
+  | some s => runImportY f d s.pkg
   | none => ⟨[], false⟩
 
 /-- the whole program. File mode: `CompileAST` runs `gta` (which imports), then `Execute` runs the
     main package; directory mode: `importSrc` of the main package like any other. -/
-def progY (f : ExecFacts) (pr : Prog) : ISt :=
+def progY (f : ExecFacts) (d : DepFacts) (pr : Prog) : ISt :=
   let fuel := pr.subs.length + 2
-  if pr.dirMode then importY f.importSrc (pr.ownY f) pr.importsOf fuel {} "main"
+  if pr.dirMode then importY f.importSrc (pr.ownY f d) pr.importsOf fuel {} "main"
   else
-    let st := pr.mainImports.foldl (importY f.importSrc (pr.ownY f) pr.importsOf fuel) {}
+    let st := pr.mainImports.foldl (importY f.importSrc (pr.ownY f d) pr.importsOf fuel) {}
     if st.err then st else
-    let t := runY f pr.main
+    let t := runY f d pr.main
     { st with seq := st.seq ++ ["main"], events := st.events ++ t.events, err := t.err }
 
 end YaegiVerif.VarInit
